@@ -341,6 +341,7 @@ structure Sim where
   asked : List Nat           -- every sid for which Unsubscribe was called
   prev : List (Nat × List String)  -- last observation of the readers
   race : Bool := false       -- registrations were committed while the stream was starting
+  hist : List (List String) := []  -- every registered set so far (a stuck loop may deliver any stale one)
 
 def insertSorted (l : List String) (a : String) : List String := sortStrs (if l.contains a then l else a :: l)
 
@@ -368,7 +369,9 @@ def stepSim (acc : Sim × Bool × List String × List Json) (so : Json × Json) 
   let op := jstr (jget stp "op")
   let st0 := sim.st
   let st1 : St := match op with
-    | "sub" => subscribe st0 { id := sid, reading := jstr (jget stp "mode") == "reader", cancelled := false, inbox := [] } st0.subs.length
+    | "sub" =>
+      let n := if jnat (jget stp "n") < 1 then 1 else jnat (jget stp "n")
+      (List.range n).foldl (fun st k => subscribe st { id := sid + k, reading := jstr (jget stp "mode") == "reader", cancelled := false, inbox := [] } st.subs.length) st0
     | "cancel" => { st0 with subs := st0.subs.map fun s => if s.id == sid then { s with cancelled := true, reading := false } else s }
     | _ => st0
   let pending0 := if op == "unsub" then sim.pending ++ [sid] else sim.pending
@@ -398,16 +401,23 @@ def stepSim (acc : Sim × Bool × List String × List Json) (so : Json × Json) 
     if jhas r (toString i) then some (jstrs (jget r (toString i))) else none
   let sfx := if st3.exited then ":stream-closed" else if stuckNow then ":slow-reader" else if race then ":start-race" else ""
   let v1 := liveReaders.filterMap fun s => if obsLast s.id == some reg then none else some ("C27:not-converged" ++ sfx)
+  -- hold steps: the loop takes at least hold/interval turns, each of which reaches every live subscriber
+  -- (`dispatch_ready`: one more status in every live inbox per turn); one turn may be lost at the edges
+  let holdMs := jnat (jget stp "hold_ms")
+  let v3 := if holdMs == 0 || stuckNow || st3.exited then [] else liveReaders.filterMap fun s =>
+    if jnat (jget (jget ob "pushes") (toString s.id)) + 1 ≥ holdMs / 1000 then none else some "C27:missed-push"
   let unsubDone (i : Nat) : Bool := let u := jget (jget ob "unsubs") (toString i); jbool (jget u "done") && jbool (jget u "closed")
   let v2 := asked.filterMap fun i => if unsubDone i then none else some ("C27:unsubscribe-blocked" ++ sfx)
   let agreeReaders := liveReaders.all fun s =>
-    if st3.blocked || st3.exited then obsLast s.id == some reg || obsLast s.id == (sim.prev.lookup s.id) || obsLast s.id == lastOf st3 s.id
+    if st3.blocked || st3.exited || sim.st.blocked then
+      obsLast s.id == some reg || obsLast s.id == (sim.prev.lookup s.id) || obsLast s.id == lastOf st3 s.id ||
+      (match obsLast s.id with | some l => sim.hist.contains l | none => false)
     else obsLast s.id == lastOf st3 s.id && lastOf st3 s.id == some reg
   let agreeUnsubs := asked.all fun i => unsubDone i == st3.closedIds.contains i
   let prev := liveReaders.filterMap fun s => (obsLast s.id).map fun l => (s.id, l)
   let mj := Json.mkObj [("blocked", st3.blocked), ("exited", st3.exited), ("registered", Json.arr (reg.map Json.str).toArray),
     ("closed", Json.arr (st3.closedIds.map (fun i => ji (Int.ofNat i))).toArray)]
-  ({ reg := reg, st := st3, pending := pending', asked := asked, prev := prev, race := race }, agree && agreeReaders && agreeUnsubs, viols ++ v1 ++ v2, models ++ [mj])
+  ({ reg := reg, st := st3, pending := pending', asked := asked, prev := prev, race := race, hist := reg :: sim.hist }, agree && agreeReaders && agreeUnsubs && v3.isEmpty, viols ++ v1 ++ v2 ++ v3, models ++ [mj])
 
 def handle (j : Json) : Json :=
   let id := jget j "id"
